@@ -230,6 +230,25 @@ def put_reply_meaning(F, p):
                 continue
             names = set()
             for o in os_:
+                if o.kind == 'call' and o.bb is not None and F.body(str(o.key)) is not None:
+                    # Ok(convert(committed)): the helper picks the value under the false / true edge of its parameter
+                    hb = F.body(str(o.key))
+                    hfl = flow_of(hb)
+                    for j, a in enumerate(p.blocks[o.bb]['term'].get('args', [])):
+                        ao = [x for x in pfl.origins(a) if x.kind != 'comb'] if a['k'] != 'const' else []
+                        if not (ao and all(tuple(x.path)[-1:] == ('committed',) for x in ao)):
+                            continue
+                        for sb, st_ in switch_blocks_on(hfl, lambda os2: bool(os2) and all(x.kind == 'param' and x.key == j + 1 for x in os2)):
+                            tr, fa = bool_edges(sb, st_)
+                            for rb in hfl.cfg.reachable():
+                                for st2 in hb.blocks[rb]['stmts']:
+                                    rv2 = st2['rv']
+                                    if st2['dst']['l'] == 0 and not st2['dst']['proj'] and rv2['k'] == 'agg' and rv2.get('vname'):
+                                        if fa and hfl.cfg.edges_guard(fa, rb):
+                                            lost.add(rv2['vname'])
+                                        elif tr and hfl.cfg.edges_guard(tr, rb):
+                                            won.add(rv2['vname'])
+                    continue
                 if o.kind == 'agg' and '::' in str(o.key):
                     names.add(str(o.key).split('::')[-1])
                 elif o.kind == 'const' and o.key in (0, 1, True, False):
@@ -240,6 +259,14 @@ def put_reply_meaning(F, p):
                 lost |= names
             elif c_true and cfg.edges_guard(c_true, ob):
                 won |= names
+            else:
+                # one return for both: each value is built under its own edge of the flag
+                for o in os_:
+                    if o.kind == 'agg' and '::' in str(o.key) and o.bb is not None:
+                        if c_false and cfg.edges_guard(c_false, o.bb):
+                            lost.add(str(o.key).split('::')[-1])
+                        elif c_true and cfg.edges_guard(c_true, o.bb):
+                            won.add(str(o.key).split('::')[-1])
     if not lost and not won:
         lost, won = {'false'}, {'true'}
     return lost, won
